@@ -433,6 +433,9 @@ func oracle(c Case) (out vkit.Outcome) {
 	}
 
 	labels := map[string]bool{"backend=" + c.Backend: true}
+	if c.ViaSetUser {
+		labels["users created by auth.SetUser (cost 12)"] = true
+	}
 	var evals []eval
 	nearMiss := false
 	for _, phase := range []string{"A", "B"} {
@@ -811,7 +814,7 @@ func TestC25(t *testing.T) {
 		Gen:      gen,
 		Oracle:   oracle,
 		Fixed:    fixed,
-		Quick:    60,
-		Thorough: 1500,
+		Quick:    40,
+		Thorough: 1000,
 	})
 }
